@@ -141,8 +141,8 @@ def judge (sc : Scenario) (os : List Obs) : Option String :=
   (where it does: corner deploy_noncritical_blocks). On top of that the attempts themselves must make sense: no more
   than the limit; the whole deployment is requested again only after a round in which a critical task's machine was
   missing (a repeated request launches every task a second time); and the core does not give up before the limit while
-  a critical task's machine is still missing. (The real core does give up early when the verdict of a round is lost on its
-  way to acquireTasks: finding deploy_verdict_lost.) -/
+  a critical task's machine is still missing. (The core used to give up early when the verdict of a round was lost on its
+  way to acquireTasks: the former finding deploy_verdict_lost, `judgeOAll`.) -/
 
 /-- The tasks launched in the last attempt. -/
 def lastAttempt (att : List (List Nat)) : List Nat := att.getLast?.getD []
@@ -172,26 +172,38 @@ def OWorkflow.asOffered (w : OWorkflow) (n : Nat) : Workflow :=
     tasks := w.tasks.map (fun t => (t.critical, if t.desc.offered (lastRound w.rounds n) then t.launch else .nohost)),
     notifyLost := w.notifyLost }
 
-/-- The environment of the workflow drops the verdict of the last of `n` attempts. -/
-def lostLast (w : OWorkflow) (n : Nat) : Bool :=
-  match w.verdictLost with
-  | some k => k + 1 == n
-  | none => false
-
-/-- Spec.C02 on an observed run of a scenario with scripted offers rounds. A violation in a scenario whose environment
-    drops the verdict of the last attempt made is attributed to that (finding deploy_verdict_lost). -/
+/-- Spec.C02 on an observed run of a scenario with scripted offers rounds: the attempts must make sense, and the clauses
+    of `judge` hold on the workflow as offered in the last round that took place. (The former corner deploy_verdict_lost
+    is repaired — `fix: acquireTasks cannot miss the verdict of its offers round` — and no longer named: a return of it is
+    a violation outside every open corner, i.e. "-" or the plain corner it falls into by its scripts.) -/
 def judgeO (sc : OScenario) : List Obs → Option String
   | [] => none
   | o :: os =>
     match o.att with
     | none => some "-"
     | some att =>
-      let v :=
-        if attemptsOk sc.wf.descs sc.wf.rounds att.length then
-          judge { wf := sc.wf.asOffered att.length, configure := sc.configure, steps := sc.steps } (o :: os)
-        else some "-"
-      match v with
-      | none => none
-      | some h => if lostLast sc.wf att.length then some "deploy_verdict_lost" else some h
+      if attemptsOk sc.wf.descs sc.wf.rounds att.length then
+        judge { wf := sc.wf.asOffered att.length, configure := sc.configure, steps := sc.steps } (o :: os)
+      else some "-"
+
+/-- In the environment of the workflow the last of `n` attempts finds acquireTasks not listening. -/
+def lostLast (w : OWorkflow) (n : Nat) : Bool :=
+  match w.notListening with
+  | some k => k + 1 == n
+  | none => false
+
+/-- The analysis of the code as it was (`AcqCfg.legacy`, unbuffered channel): a violation in a scenario whose environment
+    has the last attempt made find no receiver is attributed to the dropped verdict (the former finding
+    deploy_verdict_lost). -/
+def judgeOAll (sc : OScenario) (os : List Obs) : Option String :=
+  match judgeO sc os with
+  | none => none
+  | some h =>
+    match os with
+    | [] => some h
+    | o :: _ =>
+      match o.att with
+      | none => some h
+      | some att => if lostLast sc.wf att.length then some "deploy_verdict_lost" else some h
 
 end Trans
